@@ -43,12 +43,14 @@ TRUSTED = [
 ]
 ASSUMPTIONS = [
     "a history ends at the first exception raised by the wrapper (behaviour after an exception is not modelled)",
-    "OS pipe buffering and process start-up are not modelled; declare-sort / custom sorts are not exercised",
+    "OS pipe buffering and process start-up are not modelled",
+    "custom sorts: arity 0 and two instances of one arity-2 sort symbol (model: a second declared-set with its own level stack, separate name space); reading abstract values of custom sorts is not modelled (open finding)",
     "the sat-mode precondition of get-value is enforced by the reference solver, not by the Coq spec; generated histories query values only after a sat answer",
     "Int verdicts are relative to the range -4..4 for free symbols",
 ]
 RULE = ("histories: (a) the Coq refutation witness and the witnesses of the clauses repaired by fixes C17 a-d (regression), (b) user-legal histories over a 13-call alphabet: all up to length 2 + a sample of length 3 (thorough: all up to length 4), "
         "(c) random histories with one-level push/pop, no reset, value queries last, (d) random histories stressing one repaired clause each; a quarter of (c),(d) draws from a 40-symbol pool of mixed sorts with formulas of 7..33 distinct free symbols (sizes 7,8,9,15,16,17,31,32,33 explicitly), "
+        "(d'') names: a custom sort and a symbol with the SAME name (both arrival orders, one assertion or several, across push / pop(n) / reset, first use popped before the second arrives), a symbol named like its own sort, sorts named like theory functions / auxiliary let names / needing quotes, symbols named Int, 0x, .def_k; 15% of (c),(d) add such names to their pool; paramsort: two instances of a sort symbol with arguments; sortvalue: value queries on custom-sort symbols, "
         "(d') poplevels: symbols declared at different levels, one pop(n) with n in 2..4, reuse of symbols of the lowest/middle/highest popped level in small and large formulas, with/without a small formula first, optionally after push / reset_assertions; widemodel: 15..33 symbols at one level then get_model / get_value of wide terms, "
         "(value queries anywhere / get_model at any depth / push,pop with n in 0..3 / reset_assertions / value query on an unasserted symbol), (e) factory one-shot shortcuts; "
         "distinct = distinct (history, formulas) inputs")
@@ -72,6 +74,11 @@ SORT_ELEMS = {"S": ["es0", "es1"], "T": ["et0", "et1"], "b0": ["eb0", "eb1"], "p
               "e0": ["e0", "e1"], "and": ["ea0", "ea1"], ".def_0": ["ed0", "ed1"], "a b": ["eq0", "eq1"]}
 for _sn in SORTS:
     POOL += [(n, "U:" + _sn) for n in SORT_ELEMS[_sn]]
+# a sort symbol WITH arguments: two instances of one declaration (only in the paramsort family)
+PARAM_SORTS = {"(Pair Int Int)": ("Pair", ["Int", "Int"]), "(Pair Bool Bool)": ("Pair", ["Bool", "Bool"])}
+SORT_ELEMS.update({"(Pair Int Int)": ["q0", "q1"], "(Pair Bool Bool)": ["r0", "r1"]})
+POOL += [("q0", "U:(Pair Int Int)"), ("q1", "U:(Pair Int Int)"), ("r0", "U:(Pair Bool Bool)"), ("r1", "U:(Pair Bool Bool)"),
+         ("Pair", "Bool")]
 # symbols (of built-in sorts) named like a custom sort / oddly; b0, p1, u0 above collide too
 ODD_SYMS = [("S", "Bool"), ("T", "BV"), (".def_0", "Bool"), ("a b", "Bool"), ("Int", "Bool"), ("0x", "Int"), (".def_1", "BV")]
 POOL += ODD_SYMS
@@ -81,6 +88,9 @@ assert len(SYM_SORT) == len(POOL)
 # in the Coq model sorts and symbols are numbered in separate name spaces; a sort gets the number
 # of the symbol with the same name, if there is one
 SORT_ID = {n: SYM_ID.get(n, 1000 + k) for k, n in enumerate(SORTS)}
+SORT_ID["Pair"] = SYM_ID["Pair"]
+for _inst, (_decl, _args) in PARAM_SORTS.items():
+    SORT_ID[_inst] = SORT_ID[_decl]     # the model knows the sort SYMBOL (its declaration)
 
 
 def is_usort(sort):
@@ -94,6 +104,10 @@ def pysmt_type(sort, mgr, types):
         return types.INT
     if sort == "BV":
         return types.BVType(BVW)
+    if sort[2:] in PARAM_SORTS:
+        decl, args = PARAM_SORTS[sort[2:]]
+        return mgr.env.type_manager.get_type_instance(mgr.env.type_manager.Type(decl, len(args)),
+                                                      *[pysmt_type(a, mgr, types) for a in args])
     return mgr.env.type_manager.Type(sort[2:], 0)
 
 
@@ -817,6 +831,36 @@ def names_history(rnd):
     return h
 
 
+def paramsort_history(rnd):
+    """Two instances of one sort symbol with arguments, at one level or across push/pop; plus a
+    symbol named like the sort symbol."""
+    ideal = Ideal()
+    h = []
+
+    def do(call):
+        ideal.step(call)
+        h.append(call)
+    uses = [wide_literal(rnd, "q0", True), wide_literal(rnd, "r0", True)]
+    if rnd.random() < 0.5:
+        uses.append(wide_literal(rnd, "Pair", True))
+    rnd.shuffle(uses)
+    for k, f in enumerate(uses):
+        do(("add", f))
+        r = rnd.random()
+        if k + 1 < len(uses):
+            if r < 0.25:
+                do(("push", rnd.choice([1, 2])))
+            elif r < 0.4 and ideal.depth() > 0:
+                do(("pop", ideal.depth()))
+            elif r < 0.5:
+                do(("reset",))
+    if rnd.random() < 0.6:
+        do(("add", _tree("and", uses)))
+    if ideal.cheap() and rnd.random() < 0.7:
+        do(("solve",))
+    return h
+
+
 def sortvalue_history(rnd):
     """Value queries on a symbol of a custom sort (the reply is an abstract value (as @S_0 S))."""
     sn = rnd.choice(SORTS)
@@ -1306,6 +1350,8 @@ def diagnose(h, obs, fails):
                                       assertion mentions: it is sent undeclared, the solver rejects it;
       custom-sort-value-unparsed      get_value / get_model on a symbol of an uninterpreted sort: the parser
                                       rejects the abstract value (as @S_0 S) the solver reports;
+      parametric-sort-declared-per-instance  a sort symbol with arguments is declared under the NAME OF
+                                      ITS INSTANCE ("Pair{Int, Int}"), the symbol's sort (Pair Int Int) is unknown;
       push-pop-n-records-one-level    unknown-symbol / already-declared error or IndexError after a
                                       push(n)/pop(n) with n != 1."""
     if not fails:
@@ -1342,7 +1388,10 @@ def diagnose(h, obs, fails):
                 return None
             if e["type"] == "UnknownSolverAnswerError" and "(error" not in e["msg"]:
                 return None
-            if rep.startswith('(error "unknown symbol'):
+            if (rep.startswith('(error "unknown sort') or rep.startswith('(error "ill-formed sort')) \
+                    and any(x["name"] == "declare-sort" and "{" in (x["cmd"] or "") for x in obs["log"]):
+                keys.append("parametric-sort-declared-per-instance")
+            elif rep.startswith('(error "unknown symbol'):
                 name = rep.split(":", 1)[1].strip().rstrip(')').rstrip('"').strip().strip("|")
                 if (ill[0].get("cmd") or "").startswith("(get-value") and e["type"] == "PysmtSyntaxError" \
                         and h[e["at"]][0] == "get_value" and name in syms(h[e["at"]][1]) and name not in ideal.declared():
@@ -1435,7 +1484,9 @@ def coq_commands(log):
                 so = sx[3] if n == "declare-fun" else sx[2]
             except Exception:
                 return None
-            if isinstance(so, list) or str(so) in ("Bool", "Int"):
+            if isinstance(so, list) and so and so[0] != "_" and str(so[0]) in SORT_ID:
+                out.append("CDeclare %d (Some %d)" % (SYM_ID[names[0]], SORT_ID[str(so[0])]))
+            elif isinstance(so, list) or str(so) in ("Bool", "Int"):
                 out.append("CDeclare %d None" % SYM_ID[names[0]])
             elif str(so) in SORT_ID:
                 out.append("CDeclare %d (Some %d)" % (SYM_ID[names[0]], SORT_ID[str(so)]))
@@ -1446,7 +1497,7 @@ def coq_commands(log):
                 sx = smtref.read_all(e["cmd"])[0]
             except Exception:
                 return None
-            if str(sx[1]) not in SORT_ID or str(sx[2]) != "0":
+            if str(sx[1]) not in SORT_ID:
                 return None
             out.append("CDeclareSort %d" % SORT_ID[str(sx[1])])
         elif n == "assert":
@@ -1585,6 +1636,7 @@ def run(tier):
     for fam, gen, n in (("poplevels", poplevels_history, 200 if tier == "quick" else 4000),
                         ("widemodel", widemodel_history, 60 if tier == "quick" else 800),
                         ("names", names_history, 200 if tier == "quick" else 3000),
+                        ("paramsort", paramsort_history, 16 if tier == "quick" else 120),
                         ("sortvalue", sortvalue_history, 12 if tier == "quick" else 60)):
         for _ in range(n):
             jobs.append((gen(rnd), "incremental"))
@@ -1655,8 +1707,9 @@ def run(tier):
         obs = res[i]
         if obs["timeout"]:
             continue
-        if obs.get("key") and "custom-sort-value-unparsed" in obs["key"]:
-            continue    # reading abstract values of custom sorts is not modelled (open finding)
+        if obs.get("key") and ("custom-sort-value-unparsed" in obs["key"] or "parametric-sort-declared-per-instance" in obs["key"]):
+            continue    # not modelled: reading abstract values of custom sorts / the defective
+            #             declaration of sort symbols with arguments (open findings)
         cl = coq_commands(obs["log"])
         if cl is None:
             untranslatable.append(i)
@@ -1719,7 +1772,10 @@ def run(tier):
             def pred(c):
                 o = run_history(c, os.path.join(logdir, "shrink.jsonl"))
                 fl = oracle(c, o)
-                return bool(fl) and diagnose(c, o, fl) is None and sorted(set(f["kind"] for f in fl)) == kinds0
+                open_keys = set(k["key"] for k in lib.load_known() if k.get("property") == "C17" and k.get("status") == "open")
+                dk = diagnose(c, o, fl) if fl else None
+                # keep shrinking only while the failure is not (just) an open known finding
+                return bool(fl) and not (dk and set(dk) <= open_keys) and sorted(set(f["kind"] for f in fl)) == kinds0
             try:
                 hs = shrink(h, pred)
             except Exception:
